@@ -711,6 +711,11 @@ class BinaryOp(Expr):
                     break
         left = operand_type.coerce(self.left.eval())
         right = operand_type.coerce(self.right.eval())
+        if operand_type.is_integral and not (
+                operand_type.can_hold(left) and
+                operand_type.can_hold(right)):
+            # the conversion of the operand overflows at run time
+            raise OverflowError
 
         def qbool(x):
             return -1 if x else 0
